@@ -124,7 +124,8 @@ def run(ctx):
         vlib.log(f"MODEL-DRIFT (not a violation): {drift} replayed scenarios where the real fetch refused more than the model")
     # implementation -> spec: random scenarios with 4 namespaces, up to 3 delegates, validated by TLC
     n = 600 if thorough else 60
-    recorded, accepted, rdrift = F.record_and_validate(ctx, PROP, n, 4, threads, statement_checks)
+    recorded, accepted, rdrift = F.record_and_validate(ctx, PROP, n, 4, threads, statement_checks,
+                                                         budget_secs=300 if thorough else 60, at_least=200 if thorough else 30)
     ctx.cov["traces_validated_against_impl"] += accepted
     ctx.cov["evaluations"] += len(recorded)
     ctx.cov["recorded_runs"] = len(recorded)
